@@ -9,11 +9,13 @@ RULE = ("stage 1 (ent): Huffman-coded streams of every process (baseline, optimi
         "under suspension must equal what the Lean T.81 decoder gets from the undivided bytes, and full decompression must give the same "
         "pixels, dimensions, saved markers and warning count as the memory and the stdio source; suspall - every single split position "
         "(quick: every 3rd byte); bufimg - buffered-image mode with seeded interleavings of jpeg_consume_input / start_output / "
-        "read_scanlines / finish_output over suspending and memory sources: the final pass equals one-pass decoding.  suspenc: single-pass "
+        "read_scanlines / finish_output over suspending and memory sources: the final pass equals one-pass decoding.  llsusp: lossless "
+        "streams (2..16 bits, 1..4 components, restart rows) through the same suspending source: exact reconstruction.  suspenc: single-pass "
         "Huffman compression (restart intervals in MCUs and rows, all sampling factors) through a suspending destination whose buffer is "
         "replaced before every call by one of seeded size (small enough to suspend inside most MCUs): bytes equal the memory destination's")
-TRUSTED = ["Model.Suspend states the suspension contract; that each real unit of work obeys it is not proved but exercised on the real code "
-           "at every split position", "Model.T81 (independent decoder) is the chunk-free reference for coefficients"]
+TRUSTED = ["Model.Suspend states the suspension contract; it is proved for the marker-segment reader and, at the bit level, for the sequential Huffman and "
+           "the lossless MCU decoders (the models C03/C02 tie to the code); for the other units of work (progressive, arithmetic, the encoder, the bit "
+           "buffer in front of the MCU decoder) it is not proved but exercised on the real code at every split position", "Model.T81 (independent decoder) is the chunk-free reference for coefficients"]
 ASSUMPTIONS = ["the application-side source/destination managers in the harness follow libjpeg.txt (keep unread bytes, append, honour skips)"]
 
 
@@ -21,6 +23,7 @@ def classify(op, R):
     p = op.split(" ")
     if p[0] == "ent": return _C03.classify(op, R)
     if p[0] in ("susp", "bufimg"): return "%s:k%s" % (p[0], p[1])
+    if p[0] == "llsusp": return "llsusp:P%s:k%s" % ("<=8" if int(p[1]) <= 8 else "<=12" if int(p[1]) <= 12 else "<=16", p[11])
     if p[0] == "suspenc": return "suspenc:ss%s:ri%s:%s" % (p[1], "0" if p[6] == "0" and p[7] == "0" else "1", "susp" if not R.endswith(" 0") else "nosusp")
     return p[0]
 
@@ -44,6 +47,13 @@ def gen_ops(rng, tier):
         if ss in (2, 5, 6): bmin += 200; bmax += 200
         ops.append("suspenc %d %d %d %d %d %d %d %d %d %d" % (ss, rng.randint(1, 70), rng.randint(1, 50), rng.randrange(1 << 30), rng.randrange(3), ri, rr,
                                                              rng.randrange(1 << 30), bmin, bmax))
+    # lossless streams through the suspending source (decode_mcus of jdlhuff.c, decompress_data of jddiffct.c): exact reconstruction
+    for i in range(600 if big else 120):
+        P = rng.choice([8, 8, 12, 16, rng.randint(2, 16)]); Pt = rng.choice([0, 0, 0, rng.randrange(P)])
+        nc = rng.choice([1, 3, 3, 2, 4]); w = rng.choice([1, 2, 7, 17, 40, 131]); h = rng.choice([1, 2, 5, 9, 20])
+        ops.append("llsusp %d %d %d %d %d %d %d %d %d %s %d %d %d" % (P, Pt, rng.randint(1, 7), rng.choice([0, 0, 1, 2]), nc, w, h, rng.choice([0, 0, 2, 3, 4]),
+                                                                  rng.randrange(1 << 20), "ycc" if nc == 3 and rng.random() < .5 else "rgb",
+                                                                  rng.choice([0, 1, 2, 2, 3]), rng.randrange(1 << 30), rng.randrange(1 << 16)))
     # marker handling under suspension: saved and skipped markers (full and truncating save limits, chosen by the seed), ICC
     # profile and JFIF fields with the input cut after every byte of the header
     for i in range(80 if big else 14):
@@ -80,11 +90,12 @@ MANIFEST = {
              "without side effects, never look beyond what is needed), two deliveries of the same bytes in any two chunkings reach the same "
              "final state with the same unread bytes, and every chunked execution is an execution on the undivided bytes; the application-"
              "side source manager (append behind unread bytes, skip across chunk boundaries) neither loses nor invents bytes; the marker-"
-             "segment reader satisfies the contract.  On the real code every Huffman-coded process is decoded under two-chunk splits at every "
+             "segment reader satisfies the contract, and so do - over the bit stream - the sequential Huffman MCU decoder and the lossless MCU decoder "
+             "(they never look beyond the bits they need), so their decoded MCUs do not depend on how the bits were delivered.  On the real code every Huffman-coded process is decoded under two-chunk splits at every "
              "position, 1-byte chunks and random chunkings, in buffered-image mode under random schedules, and compressed through a "
              "suspending destination with seeded buffer sizes; coefficients are compared with the independent Lean decoder."),
     "design_ref": "DESIGN.md 6.9",
-    "note": ("Partial: that decode_mcu_* / encode_mcu_huff satisfy the contract is exercised, not proved. Trusted: Lean kernel; axioms propext, "
+    "note": ("Partial: that the progressive/arithmetic decode_mcu_*, encode_mcu_huff and jpeg_fill_bit_buffer satisfy the contract is exercised, not proved. Trusted: Lean kernel; axioms propext, "
              "Quot.sound, Classical.choice; the harness's source and destination managers."),
     "technique": "Lean 4 proof (simulation argument over chunked executions) + exhaustive split-position runs of the real codec + independent-decoder correspondence",
 }
